@@ -162,11 +162,12 @@ func keysOf(m map[string]bool) []string {
 func (w *world) track(g *reg, op *operator.Operator, api string, admin bool) *opTrack {
 	w.nextOp++
 	t := &opTrack{id: w.nextOp, op: op, g: g, api: api, admin: admin, shape: opShape(op), logAt: len(g.log),
-		origin: g.sim.Describe(), last: op.Status(), fkinds: map[string]bool{}, fp: map[footprint]bool{}}
+		origin: g.sim.Describe(), last: op.Status(), fkinds: map[string]bool{}, fp: map[footprint]bool{}, fpk: map[[2]uint64]bool{}}
 	t.trans = []string{sname(t.last)}
 	for i := 0; i < op.Len(); i++ {
 		for _, f := range stepFootprints(op.Step(i)) {
 			t.fp[f] = true
+			t.fpk[[2]uint64{f.store, f.id}] = true
 		}
 	}
 	t.planOK = planExecutable(g, op)
@@ -689,11 +690,16 @@ func (w *world) submitOps(g *reg, res genResult, stale bool, admin bool, waiting
 				t.ambiguous = true
 			} else if tg.view != nil {
 				for _, f := range diffFootprints(simFrom(tg.view), tg.sim) {
-					if t.fp[f] {
+					if t.coincides(f) {
 						t.ambiguous = true
 					}
 				}
 			}
+		}
+		if tg.dead {
+			// the store has already merged this region away; pd's cache has not noticed yet
+			t.foreign, t.ambiguous = true, true
+			t.fkinds["region-merged-away"] = true
 		}
 		if len(tg.inbox) > 0 {
 			// commands of earlier operators are still in flight
